@@ -256,7 +256,8 @@ func (wd *World) configs() []any {
 func (wd *World) genID() string {
 	wd.genCount++
 	id := fmt.Sprintf("gen-%d-%d", wd.cidx, wd.genCount)
-	wd.root.rec.lastGen = id
+	r := wd.root.rec
+	r.gens = append(r.gens, genEv{Seq: r.stamp(), Task: simrt.CurID(), ID: id})
 	return id
 }
 
@@ -494,9 +495,16 @@ type recQ struct {
 		Enqueue(item any, priority int) bool
 	}
 	in     innerQ
+	mu     simrt.Mutex
+	items  []qItem
 	qi     int
 	lens   []lenObs
 	recLen bool
+}
+
+type qItem struct {
+	item any
+	sub  int
 }
 
 type lenObs struct {
@@ -529,24 +537,55 @@ func subOf(item any) int {
 	return -1
 }
 
+// The wrapper serialises its own calls with a simulated mutex so that each
+// record is atomic with the inner operation it describes (the inner queue
+// serialises them anyway; Len stays outside, it is the lock-free read).
 func (r *recQ) Enqueue(item any) bool {
+	sub := subOf(item)
+	r.mu.Lock()
 	ok := r.fifo.Enqueue(item)
-	r.wd.root.rec.qEnq(r.wd, r.qi, subOf(item), ok)
+	if ok {
+		r.remember(item, sub)
+	}
+	r.wd.root.rec.qEnq(r.wd, r.qi, sub, ok)
+	r.mu.Unlock()
 	return ok
 }
 
 func (r recPQ) Enqueue(item any, priority int) bool {
+	sub := subOf(item)
+	r.mu.Lock()
 	ok := r.heap.Enqueue(item, priority)
-	r.wd.root.rec.qEnq(r.wd, r.qi, subOf(item), ok)
+	if ok {
+		r.remember(item, sub)
+	}
+	r.wd.root.rec.qEnq(r.wd, r.qi, sub, ok)
+	r.mu.Unlock()
 	return ok
 }
 
 func (r *recQ) Dequeue() (any, bool) {
+	r.mu.Lock()
 	v, ok := r.in.Dequeue()
 	if ok {
-		r.wd.root.rec.qDeq(r.wd, r.qi, subOf(v))
+		r.wd.root.rec.qDeq(r.wd, r.qi, r.forget(v))
 	}
+	r.mu.Unlock()
 	return v, ok
+}
+
+// remember/forget map queued items to submissions without calling into the
+// library (its accessors contain yield points).
+func (r *recQ) remember(item any, sub int) { r.items = append(r.items, qItem{item, sub}) }
+
+func (r *recQ) forget(item any) int {
+	for i, x := range r.items {
+		if x.item == item {
+			r.items = append(r.items[:i:i], r.items[i+1:]...)
+			return x.sub
+		}
+	}
+	return -1
 }
 
 func (r *recQ) Len() int {
@@ -558,7 +597,13 @@ func (r *recQ) Len() int {
 }
 
 func (r *recQ) Values() []any { return r.in.Values() }
-func (r *recQ) Purge()        { r.in.Purge(); r.wd.root.rec.qPurged(r.wd, r.qi) }
-func (r *recQ) Close() error  { return r.in.Close() }
+func (r *recQ) Purge() {
+	r.mu.Lock()
+	r.in.Purge()
+	r.items = nil
+	r.wd.root.rec.qPurged(r.wd, r.qi)
+	r.mu.Unlock()
+}
+func (r *recQ) Close() error { return r.in.Close() }
 
 func containsStr(s, sub string) bool { return strings.Contains(s, sub) }
